@@ -16,7 +16,7 @@ run_one() {
   if ! git -C $wt apply $d/patch.diff 2>/dev/null; then
     echo "$name PATCH-DOES-NOT-APPLY"
   else
-    out=$(cd $V && VERIF_REPO=$wt VERIF_NO_EVIDENCE=1 ./check $prop $TIER 2>&1); rc=$?
+    out=$(cd ${VERIF_CHECK_DIR:-$V} && VERIF_REPO=$wt VERIF_NO_EVIDENCE=1 ./check $prop $TIER 2>&1); rc=$?
     nv=$(echo "$out" | grep -c '^VIOLATION')
     if [ $rc -eq 1 ] && [ $nv -ge 1 ]; then echo "$name DETECTED violations=$nv"; else echo "$name MISSED rc=$rc"; fi
   fi
